@@ -77,11 +77,11 @@ func (c *checker) sigInputJobs(jobs *[]job) {
 							msg = ref.AppendTreeHeadSignature(nil, ref.TreeHeadSignature{Version: v, SignatureType: ref.TreeHashSig, Timestamp: ts, TreeSize: size, RootHash: root})
 						}
 						sth.TreeHeadSignature = signWithTestKey(msg)
-						c.verify("VerifySTHSignature", vid, rerr == nil, "signature over the reference input; version "+ref.Class(rerr), func() error { return verifier.VerifySTHSignature(sth) })
+						c.verify("VerifySTHSignature", vid, rerr == nil, "good-signature version="+ref.Class(rerr), func() error { return verifier.VerifySTHSignature(sth) })
 						if rerr == nil {
 							other, _ := ref.AppendSTHSignatureInput(nil, v, size+1, ts, root) // fields swapped / shifted
 							sth.TreeHeadSignature = signWithTestKey(other)
-							c.verify("VerifySTHSignature", vid, false, "signature over (timestamp, tree_size) = (tree_size+1, timestamp)", func() error { return verifier.VerifySTHSignature(sth) })
+							c.verify("VerifySTHSignature", vid, false, "signature-over-swapped-timestamp-and-tree-size", func() error { return verifier.VerifySTHSignature(sth) })
 						}
 					}})
 				}
@@ -144,11 +144,11 @@ func (c *checker) sigInputJobs(jobs *[]job) {
 							}
 						}
 						sct.Signature = signWithTestKey(msg)
-						c.verify("VerifySCTSignature", vid, rerr == nil, "signature over the reference input; "+ref.Class(rerr), func() error { return verifier.VerifySCTSignature(sct, entry) })
+						c.verify("VerifySCTSignature", vid, rerr == nil, "good-signature input="+ref.Class(rerr), func() error { return verifier.VerifySCTSignature(sct, entry) })
 						if rerr == nil {
 							other, _ := ref.AppendSCTSignatureInput(nil, v, ^ts, ec.se, ext) // the leaf's timestamp instead of the SCT's
 							sct.Signature = signWithTestKey(other)
-							c.verify("VerifySCTSignature", vid, false, "signature over the leaf's timestamp instead of the SCT's", func() error { return verifier.VerifySCTSignature(sct, entry) })
+							c.verify("VerifySCTSignature", vid, false, "signature-over-leaf-timestamp-instead-of-sct-timestamp", func() error { return verifier.VerifySCTSignature(sct, entry) })
 						}
 					}})
 				}
